@@ -103,7 +103,10 @@ def recorded_root_formats(tree):
 def main(tier, seed):
     eng = engine.Engine(PROP, tier, seed, "model_checking")
     engine.selftest(eng)
-    B = bases(eng.local_ctx(), tier)
+    B = engine.scenarios(eng, lambda: bases(eng.local_ctx(), tier))
+    B = {k: v for k, v in B.items() if v[0] is not None}
+    if not B:
+        raise engine.HarnessError("no base state could be sealed: " + str(eng.notes.get("skipped_scenarios")))
     cases, states = [], set()
     for name, (tree, has) in B.items():
         singles = mutations(tree)
